@@ -107,8 +107,10 @@ func (s *Sched) switchTo(next int, site int) {
 		Resume()
 	}
 	s.cur = next
+	SetOwner(s.Tasks[next].gid) // 0 if it has not started yet: set again when it starts
 	s.Tasks[next].resume <- struct{}{}
 	<-s.Tasks[from].resume
+	SetOwner(s.Tasks[from].gid)
 }
 
 // Run executes all tasks under the plan, starting with task `first`, and
@@ -124,6 +126,7 @@ func (s *Sched) Run(first int) {
 		go func() {
 			<-t.resume
 			t.gid = curGID()
+			SetOwner(t.gid)
 			func() {
 				defer func() {
 					if r := recover(); r != nil {
@@ -144,6 +147,7 @@ func (s *Sched) Run(first int) {
 						Resume()
 					}
 					s.cur = j
+					SetOwner(u.gid)
 					u.resume <- struct{}{}
 					return
 				}
@@ -157,6 +161,7 @@ func (s *Sched) Run(first int) {
 	SetExtraHook(s.hook)
 	s.Tasks[first].resume <- struct{}{}
 	<-s.done
+	SetOwner(0)
 	SetExtraHook(nil)
 	active = nil
 }
